@@ -242,6 +242,36 @@ fn image_of(st: &TensorStore) -> Vec<String> {
     out.sort();
     out
 }
+/// `exists`, `scan` and `get` must tell the same story (theorem exists_scan_get_agree): for every key of `universe`
+/// and every key scan lists: exists(k) == get(k).is_ok(), get(k).is_ok() => scan lists k (also by the key as prefix),
+/// scan lists k => get answers. Returns the incoherent keys with what is wrong.
+fn incoherent_keys(st: &TensorStore, universe: &[String]) -> Vec<(String, String)> {
+    let listed: HashSet<String> = st.scan("").into_iter().collect();
+    let mut keys: Vec<String> = listed.iter().cloned().collect();
+    keys.extend(universe.iter().cloned());
+    keys.sort();
+    keys.dedup();
+    let mut bad = Vec::new();
+    for k in keys {
+        let e = st.exists(&k);
+        let g = st.get(&k).is_ok();
+        let l = listed.contains(&k);
+        let lp = st.scan(&k).iter().any(|x| *x == k);
+        if e != g || g != l || l != lp {
+            bad.push((k, format!("exists={e} get_ok={g} scan_lists={l} scan_by_key_prefix_lists={lp}")));
+        }
+    }
+    bad
+}
+fn keys_of_images(imgs: &[Vec<String>]) -> Vec<String> {
+    let mut v: Vec<String> = imgs.iter().flatten().filter_map(|it| it.split_once('=').map(|x| String::from_utf8(nverif::unhex(x.0)).unwrap_or_default())).collect();
+    v.extend(["nope", "emb:nope", "_cache:nope", "emb:", "_cache:"].iter().map(|x| x.to_string()));
+    v.sort();
+    v.dedup();
+    v
+}
+const INCOHERENT: &str = "tensor_store.exists_scan_get/disagree";
+
 fn durable_part(img: &[String]) -> Vec<String> {
     let cache_prefix = hex(b"_cache:");
     img.iter().filter(|s| !s.starts_with('!') && !s.starts_with(&cache_prefix)).cloned().collect()
@@ -515,6 +545,8 @@ struct CrashInfo<'a> {
     unsynced_ckpt: bool,
     compare_model: bool,
     bloom: bool,
+    /// appends can fail in this chain (auto_rotate = false): ghost emb: keys are observed, not violations
+    failing_appends: bool,
     script: &'a Value,
 }
 
@@ -523,9 +555,11 @@ struct CrashInfo<'a> {
 fn check_recovery(ctx: &mut Ctx, ds: &DiskState, cfg: &WalConfig, exp: &Expect, info: &CrashInfo) -> Option<usize> {
     let (d, wal, sp) = materialise(ctx, ds);
     let r = if info.bloom { TensorStore::recover_with_bloom(&wal, cfg, sp.as_deref(), BLOOM_ITEMS, BLOOM_FPR) } else { TensorStore::recover(&wal, cfg, sp.as_deref()) };
+    let mut incoherent: Vec<(String, String)> = Vec::new();
     let (imp_ans, img) = match &r {
         Ok(st) => {
             let img = image_of(st);
+            incoherent = incoherent_keys(st, &keys_of_images(exp.prefixes));
             (fmt_image(&img), Some(img))
         },
         Err(e) => {
@@ -610,6 +644,16 @@ fn check_recovery(ctx: &mut Ctx, ds: &DiskState, cfg: &WalConfig, exp: &Expect, 
         ctx.rep.violation(&class, &format!("{kind}: {detail}"), cut_json());
     } else {
         ctx.rep.hit("oracle.recovered_state_is_acked_prefix");
+    }
+    for (k, what) in &incoherent {
+        if info.failing_appends && k.starts_with("emb:") {
+            continue; // the ghost of a failed put_durable: reported as an observation below
+        }
+        ctx.rep.hit(&format!("violation.{INCOHERENT}"));
+        ctx.rep.violation(INCOHERENT, &format!("recovered store: key {k:?}: {what}"), cut_json());
+    }
+    if incoherent.is_empty() {
+        ctx.rep.hit("oracle.exists_scan_get_agree");
     }
     if let Some(img) = &img {
         let embp = format!("!{}", hex(b"emb:"));
@@ -982,20 +1026,20 @@ fn run_chain(ctx: &mut Ctx, r: &mut Rng, cc: &ChainCfg, epochs: &[Vec<Op>]) {
                     let all_now = prefixes.len() - 1;
                     let full: Vec<Vec<String>> = prefixes.clone();
                     // c0: crash before the log is fsynced (what was on disk before the call)
-                    let info0 = CrashInfo { stream: cc.stream, what: format!("epoch {ei} checkpoint@op{oi}: before fsync"), prev_torn, rotated: rotated_any, unsynced_ckpt: false, compare_model: cc.compare_model, bloom: cc.bloom, script: &script };
+                    let info0 = CrashInfo { stream: cc.stream, what: format!("epoch {ei} checkpoint@op{oi}: before fsync"), prev_torn, rotated: rotated_any, unsynced_ckpt: false, compare_model: cc.compare_model, bloom: cc.bloom, failing_appends: cc.no_rotate, script: &script };
                     let fl0 = if immediate { all_now } else { floor_ops };
                     check_recovery(ctx, &old, &cfg, &Expect { prefixes: &full, floor: fl0 }, &info0);
                     ctx.rep.hit("ckpt_state.before_fsync");
                     // c0b: log fsynced, old snapshot still in place: everything issued is acknowledged
                     let synced_old = DiskState { snap: snap_bytes.clone(), snap_name: snap_name.clone(), wal: wal_before.clone(), segments: segs_before.clone(), tmp: None };
-                    let info0b = CrashInfo { stream: cc.stream, what: format!("epoch {ei} checkpoint@op{oi}: log fsynced, before snapshot"), prev_torn, rotated: rotated_any, unsynced_ckpt: !issued_records_on_disk, compare_model: cc.compare_model, bloom: cc.bloom, script: &script };
+                    let info0b = CrashInfo { stream: cc.stream, what: format!("epoch {ei} checkpoint@op{oi}: log fsynced, before snapshot"), prev_torn, rotated: rotated_any, unsynced_ckpt: !issued_records_on_disk, compare_model: cc.compare_model, bloom: cc.bloom, failing_appends: cc.no_rotate, script: &script };
                     check_recovery(ctx, &synced_old, &cfg, &Expect { prefixes: &full, floor: all_now }, &info0b);
                     ctx.rep.hit("ckpt_state.before_snapshot");
                     // c0c: crash INSIDE the snapshot step: the temp file is partly written, not yet renamed over
                     // the snapshot path (recovery must not look at it; with no earlier snapshot it is given a
                     // snapshot path that does not exist)
                     let partial_tmp = DiskState { snap: snap_bytes.clone(), snap_name: snap_name.clone(), wal: wal_before.clone(), segments: segs_before.clone(), tmp: Some(new_snap[..new_snap.len() / 2].to_vec()) };
-                    let info0c = CrashInfo { stream: cc.stream, what: format!("epoch {ei} checkpoint@op{oi}: log fsynced, snapshot temp file half written"), prev_torn, rotated: rotated_any, unsynced_ckpt: !issued_records_on_disk, compare_model: cc.compare_model, bloom: cc.bloom, script: &script };
+                    let info0c = CrashInfo { stream: cc.stream, what: format!("epoch {ei} checkpoint@op{oi}: log fsynced, snapshot temp file half written"), prev_torn, rotated: rotated_any, unsynced_ckpt: !issued_records_on_disk, compare_model: cc.compare_model, bloom: cc.bloom, failing_appends: cc.no_rotate, script: &script };
                     check_recovery(ctx, &partial_tmp, &cfg, &Expect { prefixes: &full, floor: all_now }, &info0c);
                     ctx.rep.hit("ckpt_state.partial_snapshot_tmp");
                     // c1..c3: snapshot in place, marker absent / partial / complete
@@ -1015,6 +1059,7 @@ fn run_chain(ctx: &mut Ctx, r: &mut Rng, cc: &ChainCfg, epochs: &[Vec<Op>]) {
                             unsynced_ckpt: !issued_records_on_disk,
                             compare_model: cc.compare_model,
                             bloom: cc.bloom,
+                            failing_appends: cc.no_rotate,
                             script: &script,
                         };
                         check_recovery(ctx, &ds, &cfg, &Expect { prefixes: &full, floor: all_now }, &info);
@@ -1023,7 +1068,7 @@ fn run_chain(ctx: &mut Ctx, r: &mut Rng, cc: &ChainCfg, epochs: &[Vec<Op>]) {
                     }
                     // c4: truncated
                     let ds4 = DiskState { snap: Some(new_snap.clone()), snap_name: new_name.clone(), wal: Vec::new(), segments: read_segments(&dir), tmp: None };
-                    let info4 = CrashInfo { stream: cc.stream, what: format!("epoch {ei} checkpoint@op{oi}: log truncated"), prev_torn, rotated: false, unsynced_ckpt: false, compare_model: cc.compare_model, bloom: cc.bloom, script: &script };
+                    let info4 = CrashInfo { stream: cc.stream, what: format!("epoch {ei} checkpoint@op{oi}: log truncated"), prev_torn, rotated: false, unsynced_ckpt: false, compare_model: cc.compare_model, bloom: cc.bloom, failing_appends: cc.no_rotate, script: &script };
                     check_recovery(ctx, &ds4, &cfg, &Expect { prefixes: &full, floor: all_now }, &info4);
                     ctx.rep.hit("ckpt_state.after_truncate");
                     states.push((ds4, false));
@@ -1077,6 +1122,13 @@ fn run_chain(ctx: &mut Ctx, r: &mut Rng, cc: &ChainCfg, epochs: &[Vec<Op>]) {
             ctx.rep.hit(&format!("violation.{class}"));
             ctx.rep.violation(class, "live store (after a recovery) answers differently from the writes issued", json!({"script": script, "epoch": ei, "live": live_dur, "expected": spec_image(&spec)}));
         }
+        for (k, what) in incoherent_keys(&store, &keys_of_images(&prefixes)) {
+            if cc.no_rotate && k.starts_with("emb:") {
+                continue; // ghost of a failed put_durable: observed below
+            }
+            ctx.rep.hit(&format!("violation.{INCOHERENT}"));
+            ctx.rep.violation(INCOHERENT, &format!("live store: key {k:?}: {what}"), json!({"script": script, "epoch": ei}));
+        }
         for g in live.iter().filter(|s| s.starts_with('!')) {
             let key = String::from_utf8(nverif::unhex(&g[1..])).unwrap_or_default();
             if key.starts_with("emb:") {
@@ -1117,7 +1169,7 @@ fn run_chain(ctx: &mut Ctx, r: &mut Rng, cc: &ChainCfg, epochs: &[Vec<Op>]) {
                     end == "torn"
                 };
                 ctx.rep.hit(if is_torn { "cut.torn_tail" } else { "cut.record_boundary" });
-                let info = CrashInfo { stream: cc.stream, what: format!("epoch {ei}: log cut at byte {n} of {}", file.len()), prev_torn, rotated: rotated_any, unsynced_ckpt: false, compare_model: cc.compare_model, bloom: cc.bloom, script: &script };
+                let info = CrashInfo { stream: cc.stream, what: format!("epoch {ei}: log cut at byte {n} of {}", file.len()), prev_torn, rotated: rotated_any, unsynced_ckpt: false, compare_model: cc.compare_model, bloom: cc.bloom, failing_appends: cc.no_rotate, script: &script };
                 let k = check_recovery(ctx, &ds, &cfg, &Expect { prefixes: &prefixes, floor }, &info);
                 results.push((n, k, is_torn));
             }
@@ -1510,7 +1562,7 @@ fn main() {
         "crash_number.1", "crash_number.2", "ckpt_state.before_fsync", "ckpt.unsynced_tail_flushed_by_checkpoint", "ckpt_state.before_snapshot", "ckpt_state.after_snapshot", "ckpt_state.inside_marker",
         "ckpt_state.after_marker", "ckpt_state.after_truncate", "frames.end.clean", "frames.end.torn", "frames.end.bad_crc", "frames.end.undecodable",
         "op.sync", "op.checkpoint", "oracle.recovered_state_is_acked_prefix",
-        "config.bloom", "config.no_checksums", "config.no_verify", "config.batched01", "ckpt_state.partial_snapshot_tmp", "emb.nonvector", "crash_number.3", "config.no_auto_rotate", "op.refused_by_size_limit",
+        "config.bloom", "config.no_checksums", "config.no_verify", "config.batched01", "ckpt_state.partial_snapshot_tmp", "emb.nonvector", "crash_number.3", "config.no_auto_rotate", "op.refused_by_size_limit", "oracle.exists_scan_get_agree",
     ]
     .iter()
     .map(|s| s.to_string())
